@@ -6,6 +6,8 @@
 (*   Def(n, fl)     (def ^fl n <value>) in the current namespace (also a redefinition) *)
 (*   InNs           (in-ns 'other)                                                     *)
 (*   RequireAs      (require '[other :as al])                                          *)
+(*   AliasSelf      (require '[current :as al]): the alias is pointed at the current   *)
+(*                  namespace -- an alias denotes the namespace it was LAST given      *)
 (*   Refer(n)       (refer 'other :only '[n])                                          *)
 (*   AlterRoot(n)   (alter-var-root (var n) (constantly <value>))                      *)
 (* and after every step every SPELLING of every name is read in the current namespace: *)
@@ -55,7 +57,7 @@ Ident(x, n) == 100 * IxNs(x) + 10 * IxN(n)
 VARIABLES vr,          \* [NSS \X Names -> [ex, t, alt, fl]]: the Vars (ex: interned; t: which def value is the
                        \* last one given by def -- lastDef; alt: root changed by alter-var-root since; fl: flag)
           refers,      \* [NSS -> SUBSET Names]: names referred from the other namespace
-          alias,       \* [NSS -> BOOLEAN]: `al` is an alias of the other namespace
+          alias,       \* [NSS -> NSS \cup {"-"}]: the namespace `al` denotes in x ("-": no such alias)
           req,         \* [NSS -> BOOLEAN]: the other namespace has been required (as-built: its module is bound)
           cur          \* current namespace
 nvars == <<vr, refers, alias, req, cur>>
@@ -63,7 +65,7 @@ nvars == <<vr, refers, alias, req, cur>>
 NoVar == [ex |-> FALSE, t |-> 0, alt |-> FALSE, fl |-> "plain"]
 NInit == /\ vr = [p \in NSS \X Names |-> NoVar]
          /\ refers = [x \in NSS |-> {}]
-         /\ alias = [x \in NSS |-> FALSE]
+         /\ alias = [x \in NSS |-> "-"]
          /\ req = [x \in NSS |-> FALSE]
          /\ cur = "A"
 
@@ -80,9 +82,13 @@ Def(n, fl) ==
   /\ UNCHANGED <<refers, alias, req, cur>>
 InNs == cur' = Other(cur) /\ UNCHANGED <<vr, refers, alias, req>>
 RequireAs ==
-  /\ ~alias[cur]
-  /\ alias' = [alias EXCEPT ![cur] = TRUE] /\ req' = [req EXCEPT ![cur] = TRUE]
+  /\ alias[cur] # Other(cur)
+  /\ alias' = [alias EXCEPT ![cur] = Other(cur)] /\ req' = [req EXCEPT ![cur] = TRUE]
   /\ UNCHANGED <<vr, refers, cur>>
+AliasSelf ==
+  /\ alias[cur] # cur
+  /\ alias' = [alias EXCEPT ![cur] = cur]
+  /\ UNCHANGED <<vr, refers, req, cur>>
 (* refer loads the other namespace and maps the name when it is interned there and public *)
 Refer(n) ==
   /\ n \notin refers[cur] \/ ~req[cur]
@@ -117,7 +123,11 @@ ResolveIn(x, n) ==
 
 Resolve(n, sp) ==
   CASE sp = "bare" -> ResolveBare(n)
-    [] sp = "al"   -> IF alias[cur] THEN ResolveIn(Other(cur), n) ELSE RCode(UNRES)
+    \* (whether a PRIVATE Var of the current namespace is reachable through an alias of the current namespace
+    \* itself is not fixed by the property: the implementation refuses it)
+    [] sp = "al"   -> IF alias[cur] = "-" THEN RCode(UNRES)
+                      ELSE IF alias[cur] = cur /\ V(cur, n).ex /\ Private(cur, n) THEN RCode(ANY)
+                      ELSE ResolveIn(alias[cur], n)
     [] sp = "fqA"  -> ResolveIn("A", n)
     [] sp = "fqB"  -> ResolveIn("B", n)
     [] sp = "loc"  -> <<"local", "-", "-">>
@@ -144,7 +154,7 @@ Req(n, sp, m) ==
 
 (* ------------------------------ properties of the required level --------------------- *)
 TypeOK == /\ cur \in NSS
-          /\ \A x \in NSS : refers[x] \subseteq Names /\ (alias[x] => req[x])
+          /\ \A x \in NSS : refers[x] \subseteq Names /\ (alias[x] = Other(x) => req[x])
           /\ \A p \in NSS \X Names : vr[p].ex \/ vr[p] = NoVar
 (* two different names never denote the same Var, whatever the spelling *)
 DistinctNamesDistinctVars ==
